@@ -71,10 +71,10 @@ def fresh_world(cal_state=None, ab_state=None, kind="tree", cfg="git", root_stor
 _APPS = {}
 
 
-def make_app(principal="/user/", strict=True, root=ROOT):
+def make_app(principal="/user/", strict=True, root=ROOT, index_threshold=None):
     """The app object is immutable configuration (property / reporter / method tables): built once per
     process and reused across paths; the backend (which holds the principal set) is fresh every time."""
-    backend = Wb.XandikosBackend(root)
+    backend = Wb.XandikosBackend(root, index_threshold=index_threshold)
     backend._mark_as_principal(principal)
     key = (principal, strict)
     if key not in _APPS:
